@@ -262,6 +262,34 @@ theorem bookTable_eq_fold {α} (hs : List (Bytes × α)) :
   rw [dictFold_eq]
   simp
 
+/-- looking a name up in the by-the-book table gives its last definition -/
+theorem dictGet?_bookTable {α} (hs : List (Bytes × α)) (k : Bytes) : dictGet? (bookTable hs) k = lastValue k hs := by
+  induction hs with
+  | nil => rfl
+  | cons kv rest ih =>
+    obtain ⟨k', v⟩ := kv
+    by_cases hk : k' = k
+    · subst hk
+      rw [lastValue_cons_self]
+      simp [bookTable, dictGet?]
+    · rw [lastValue_cons_ne _ _ _ _ hk, ← ih]
+      simp only [bookTable, dictGet?, List.find?_cons, hk, decide_false]
+      congr 1
+      clear ih
+      induction bookTable rest with
+      | nil => rfl
+      | cons a t iht =>
+        by_cases ha : a.1 = k'
+        · have h1 : decide (a.1 ≠ k') = false := decide_eq_false (fun h => h ha)
+          have h2 : decide (a.1 = k) = false := decide_eq_false (fun e => hk (ha.symm.trans e))
+          simp only [List.filter_cons, h1, Bool.false_eq_true, if_false, List.find?_cons, h2, iht]
+        · have h1 : decide (a.1 ≠ k') = true := decide_eq_true ha
+          by_cases hak : a.1 = k
+          · have h2 : decide (a.1 = k) = true := decide_eq_true hak
+            simp only [List.filter_cons, h1, if_true, List.find?_cons, h2]
+          · have h2 : decide (a.1 = k) = false := decide_eq_false hak
+            simp only [List.filter_cons, h1, if_true, List.find?_cons, h2, iht]
+
 /-! ### the whole text -/
 
 @[simp] theorem headerOf_header (k v : Bytes) : Line.headerOf (.header k v) = some (k, v) := rfl
@@ -344,19 +372,5 @@ theorem bookDoc_parseDoc (lines : List Bytes) (doc : Doc) (h : bookDoc lines = s
     unfold parseDoc
     rw [parseDoc_acc ls lines ⟨[], []⟩ hl, bookTable_eq_fold]
     simp
-
-/-- the specification's denotation with its own lexer is the shared-semantics denotation `denote` of the same text -/
-theorem denoteText_eq_denote (lay : Layout) (lines : List Bytes) (d : Denotation) (h : denoteText lay lines = some d) :
-    denote lay lines = some d ∧ ∃ doc, bookDoc lines = some doc ∧ parseDoc lines = .ok doc := by
-  unfold denoteText at h
-  cases hb : bookDoc lines with
-  | none => simp [hb] at h
-  | some doc =>
-    simp only [hb] at h
-    have hp := bookDoc_parseDoc lines doc hb
-    refine ⟨?_, doc, rfl, hp⟩
-    unfold denote
-    simp only [hp]
-    exact h
 
 end Reamber.BMS
